@@ -386,6 +386,106 @@ def build_correspondence(report, pid, rng, drv, n, values, malformed_every=4):
                          {"property": pid, "history": hist})
 
 
+# ------------------------------------------------------------------ the read-back model (factory/Read.v) against FiltersSet
+
+def _rv(v):
+    if isinstance(v, bool):
+        return "b"
+    if isinstance(v, int):
+        return "i%d" % v
+    if isinstance(v, list):
+        return "l" + "+".join(hx(e.encode("utf-8")) for e in v)
+    return "s" + hx(v.encode("utf-8"))
+
+
+def _tups(f):
+    try:
+        r = f()
+    except Exception:  # noqa
+        return "crash"
+    if r is None:
+        return None
+    return ";".join((",".join(_rv(v) for v in t) if len(t) else "()") for t in r) if r else "-"
+
+
+def _readback(fs, nm):
+    c = _tups(lambda: fs.get_filter_conditions(nm))
+    if c is None:
+        return "none"
+    a = _tups(lambda: fs.get_filter_actions(nm))
+    try:
+        mtv = fs.get_filter_matchtype(nm)
+        mtv = hx(mtv.encode()) if mtv else "none"
+    except Exception:  # noqa
+        mtv = "crash"
+    return "%s | %s | %s" % (c, a, mtv)
+
+
+def read_correspondence(report, pid, rng, drv, n, values):
+    """get_filter_conditions / get_filter_actions / get_filter_matchtype of the implementation against the extracted model
+    of walk / args_as_tuple / the negation folding, on sets built through the API (enabled and disabled filters) and on
+    the same sets saved and loaded back (trees built by the parser); crashes (AttributeError on list values ...) included."""
+    from sievelib import factory, commands
+    from sievelib.parser import Parser
+    names = ["f1", "f2"]
+    for i in range(n):
+        fs = factory.FiltersSet("t")
+        drv.ask("bnew")
+        commands.RequireCommand.loaded_extensions = []
+        hist = []
+        ok = True
+        for step in range(rng.randrange(1, 5)):
+            kind = rng.choice(["add", "add", "update", "disable", "enable"])
+            nm = rng.choice(names)
+            if kind in ("add", "update"):
+                conds = [gen_condition(rng, values) for _ in range(rng.randrange(1, 4))]
+                acts = [gen_action(rng, values) for _ in range(rng.randrange(1, 3))]
+                mt = rng.choice(["anyof", "allof"])
+                try:
+                    if kind == "add":
+                        fs.addfilter(nm, conds, acts, mt)
+                    else:
+                        fs.updatefilter(nm, nm, conds, acts, mt)
+                except factory.FilterAlreadyExists:
+                    pass
+                except Exception:  # noqa
+                    ok = False
+                line = ("badd %s %s %s %s" % (hx(nm.encode()), hx(mt.encode()), ser_ts(conds), ser_ts(acts)) if kind == "add" else
+                        "bupdate %s %s %s %s %s" % (hx(nm.encode()), hx(nm.encode()), hx(mt.encode()), ser_ts(conds), ser_ts(acts)))
+            elif kind == "disable":
+                fs.disablefilter(nm); line = "bop disable " + hx(nm.encode())
+            else:
+                fs.enablefilter(nm); line = "bop enable " + hx(nm.encode())
+            drv.ask(line)
+            hist.append(line)
+            if not ok:
+                break
+        if not ok:
+            continue
+        report.case(("read", tuple(hist)), True)
+        for nm in names:
+            exp = _readback(fs, nm)
+            got = drv.ask("bread " + hx(nm.encode()))
+            report.count("read:" + ("crash" if "crash" in exp else "none" if exp == "none" else "ok"))
+            if got != exp:
+                report.broke("correspondence %s (read-back model vs FiltersSet)" % pid,
+                             "filter %s: implementation %s, model %s" % (nm, exp[:300], got[:300]), {"property": pid, "history": hist})
+        if not fs.filters:
+            continue
+        text = F.render(fs)
+        p = Parser()
+        if not p.parse(text):
+            continue
+        fs2 = factory.FiltersSet("t")
+        fs2.from_parser_result(p)
+        exp = " / ".join("%s = %s" % (hx(f["name"].encode()), _readback(fs2, f["name"])) for f in fs2.filters) or "-"
+        got = drv.ask("breadtext %s %s %s" % (hx(b"# Filter: "), hx(b"# Description: "), hx(text.encode("utf-8"))))
+        report.count("read:reloaded")
+        if got != exp:
+            report.broke("correspondence %s (read-back model vs FiltersSet, reloaded set)" % pid,
+                         "implementation %s, model %s" % (exp[:400], got[:400]), {"property": pid, "history": hist, "text": text})
+
+
 # ------------------------------------------------------------------ C06
 
 def check_C06(report, tier, seed, replay=None):
@@ -812,6 +912,7 @@ def check_C19(report, tier, seed, replay=None):
         report.case(("to_list", tuple(vs)), True)
         if got != mod:
             report.broke("correspondence C19 (to_list model vs tools.to_list)", "input %r impl %r model %r" % (q, got, mod), {"values": vs})
+    read_correspondence(report, "C19", rng, drv, 300 if tier == "quick" else 8000, C19_VALUES + COMMA_VALUES + ['q"uote', "back\\slash"])
     drv.close()
 
 
